@@ -116,8 +116,9 @@ func (p *Parser) Parse() (al align.Alignment, err error) {
 		}
 	}
 
-	names := make([]string, nbseq)
-	seqs := make([]*bytes.Buffer, nbseq)
+	// filled while the rows are read: the header count is not trusted for allocation
+	names := make([]string, 0)
+	seqs := make([]*bytes.Buffer, 0)
 
 	tok, lit = p.scan()
 	if tok != WS {
@@ -158,7 +159,7 @@ func (p *Parser) Parse() (al align.Alignment, err error) {
 		if p.strict {
 			// if strict
 			name := p.s.Read(10)
-			if []rune(name)[len(name)-1] == eof {
+			if runes := []rune(name); runes[len(runes)-1] == eof {
 				err = fmt.Errorf("bad Phylip format, less sequences in the file than indicated in the header : %d vs. %d", nbseq, i)
 				return
 			}
@@ -168,7 +169,7 @@ func (p *Parser) Parse() (al align.Alignment, err error) {
 			}
 			// We remove spaces from names...
 			name = strings.Replace(name, " ", "", -1)
-			names[i] = name
+			names = append(names, name)
 		} else {
 			tok, lit = p.scan()
 			if tok == EOF {
@@ -179,11 +180,11 @@ func (p *Parser) Parse() (al align.Alignment, err error) {
 				err = fmt.Errorf("bad Phylip format, we should have an sequence identifier after the header : %s", lit)
 				return
 			}
-			names[i] = lit
+			names = append(names, lit)
 		}
 
 		tok, lit = p.scan()
-		seqs[i] = new(bytes.Buffer)
+		seqs = append(seqs, new(bytes.Buffer))
 		for tok != ENDOFLINE {
 			switch tok {
 			case IDENTIFIER:
